@@ -23,6 +23,7 @@ type TargetSpec struct {
 	Modes   string   `json:"modes"`
 	Note    string   `json:"note,omitempty"`
 	Dep     bool     `json:"dep,omitempty"`     // the target is a function of the uio dependency (verified against its pinned source)
+	Specialize map[string][]string `json:"specialize,omitempty"` // parameter name -> function keys: verify once per function bound to that parameter
 	Ghost   bool     `json:"ghost,omitempty"` // include functions declared in verif_*.go files (spec functions, lemmas, ghost clients)
 }
 
@@ -71,6 +72,8 @@ func parseModes(s string) Modes {
 			m.NonNilParams = true
 		case "readonly":
 			m.ReadOnly = true
+		case "noalias":
+			m.NoAlias = true
 		}
 	}
 	return m
@@ -174,7 +177,21 @@ type Run struct {
 	dir      string
 }
 
+type vjob struct {
+	fn    *ssa.Function
+	modes Modes
+	spec  map[string]*ssa.Function
+}
+
 func (eng *Engine) runTargets(tag string, fns []*ssa.Function, modesOf func(*ssa.Function) Modes, timeout time.Duration, workers int, keep, verbose bool) *Run {
+	var vj []vjob
+	for _, fn := range fns {
+		vj = append(vj, vjob{fn, modesOf(fn), nil})
+	}
+	return eng.runJobs(tag, vj, timeout, workers, keep, verbose)
+}
+
+func (eng *Engine) runJobs(tag string, vjobs []vjob, timeout time.Duration, workers int, keep, verbose bool) *Run {
 	run := &Run{}
 	t0 := time.Now()
 	dir := filepath.Join(eng.verifDir, "work", tag)
@@ -188,11 +205,12 @@ func (eng *Engine) runTargets(tag string, fns []*ssa.Function, modesOf func(*ssa
 		idx int
 	}
 	var jobs []job
-	for fi, fn := range fns {
-		m := modesOf(fn)
+	for fi, vj := range vjobs {
+		fn := vj.fn
+		m := vj.modes
 		eng.curModes = m
 		eng.assumePureDynamic = eng.curPureDynamic
-		fr := eng.verifyFunction(fn, m)
+		fr := eng.verifyFunctionSpec(fn, m, vj.spec)
 		run.fnRes = append(run.fnRes, fr)
 		if fr.Err != "" {
 			continue
